@@ -233,6 +233,12 @@ def s_registry_data(_ctx):
     from contracts.c17_opsets import Agg
     agg = Agg()
     metas = torch_2_5.get_torchlib_ops()
+    # history independence (C14 for this anchor): a SECOND call in the same process (a second export) describes the same registry
+    again = torch_2_5.get_torchlib_ops()
+    k1 = sorted((m.qualified_name, bool(m.is_complex), id(m.function)) for m in metas)
+    k2 = sorted((m.qualified_name, bool(m.is_complex), id(m.function)) for m in again)
+    agg.ob("C16.registry.a_second_call_returns_the_same_metas", k1 == k2 and len(again) == len(metas),
+           f"first call {len(metas)} entries, second call {len(again)}", CL_ONE)
     skipped = []
     n = 0
     seen = {}
